@@ -345,7 +345,7 @@ func (x *Explorer) intrinsic(fr *Frame, st *State, ins *ssa.Call, callee *ssa.Fu
 	case strings.HasSuffix(pkg, "cosmos-sdk/types"):
 		switch name {
 		case "AccAddressFromBech32":
-			return T(&Sym{N: "addr(" + st.canon(args[0]) + ")", T: ins.Type()}, newErr(st, "bech32", 0)), true
+			return T(&Sym{N: "addr(" + st.canon(args[0]) + ")", T: ins.Type()}, newErr(st, "bech32("+st.canon(args[0])+")", 0)), true
 		case "MustAccAddressFromBech32":
 			return &Sym{N: "addr(" + st.canon(args[0]) + ")", T: ins.Type()}, true
 		case "AccAddress.Equals":
@@ -551,7 +551,11 @@ func (x *Explorer) intrinsic(fr *Frame, st *State, ins *ssa.Call, callee *ssa.Fu
 			return &BoolV{F: "TimeEq(" + a + ", " + b + ")"}, true
 		case "Time.UTC":
 			return args[0], true
+		case "Time.Compare":
+			return &TCmpV{A: st.canon(args[0]), B: st.canon(args[1])}, true
 		}
+	case strings.HasSuffix(pkg, "gogoproto/types") && name == "Timestamp.Compare":
+		return &TCmpV{A: st.canon(args[0]), B: st.canon(args[1])}, true
 	case strings.HasSuffix(pkg, "timestamppb"):
 		switch name {
 		case "New":
